@@ -44,6 +44,9 @@ EXTENDS ParallelOps
 CONSTANTS MaxN,        \* at most this many distinct items
           MaxP,        \* processes \in 1..MaxP
           Req,         \* "list": items are single ids;  "pairs": items = Pairs(l1, l2) over 3 ids
+          Perms,       \* "all": every permutation of the items;  "one": one order per item set (the model
+                       \* never inspects an item -- F is uninterpreted, items are only compared for equality --
+                       \* so the orders are images of each other under renaming; "one" is the symmetry-reduced run)
           Bug
 
 VARIABLES tasks, P, nxt, wk, carry, cur, vals, finished, delivered, frame, rows, preClean, nbegin, nd
@@ -71,7 +74,7 @@ Idle == [chunk |-> 0, done |-> 0, busy |-> FALSE]
 PosOfWorker(w) == ChunkLo(wk[w].chunk, cs) + wk[w].done
 
 Init ==
-  /\ \E I \in ItemSets : tasks \in PermSeqs(I)
+  /\ \E I \in ItemSets : tasks \in (IF Perms = "all" THEN PermSeqs(I) ELSE {CHOOSE s \in PermSeqs(I) : TRUE})
   /\ P \in 1..MaxP
   /\ nxt = 1
   /\ wk = [w \in 1..MaxP |-> Idle]
